@@ -141,8 +141,12 @@ def check_property_file(prop):
     if missing:
         res["errors"].append("no Print Assumptions for: " + ", ".join(missing))
     t0 = time.time()
-    rc, out = coq_make([rel[:-2] + ".vo"], timeout=3000,
-                       remove=[os.path.join(COQ, rel[:-2] + ext) for ext in (".vo", ".vos", ".vok", ".glob")])
+    # phase 1 brings everything the property file depends on up to date (its output, which may contain the Print
+    # Assumptions lines of other files, is only looked at when it fails); phase 2 re-checks the property file alone
+    rc, out = coq_make([rel[:-2] + ".vo"], timeout=3000)
+    if rc == 0:
+        rc, out = coq_make([rel[:-2] + ".vo"], timeout=3000,
+                           remove=[os.path.join(COQ, rel[:-2] + ext) for ext in (".vo", ".vos", ".vok", ".glob")])
     res["coq_wall_s"] = round(time.time() - t0, 1)
     res["output_tail"] = out[-3000:]
     if rc != 0:
